@@ -1985,7 +1985,7 @@ func bLPop(n *Nodis, conn *redis.Conn, cmd redis.Command) {
 		return
 	}
 	execCommand(conn, func() {
-		k, v := n.BLPop(time.Duration(timeout*time.Second.Seconds())*time.Second, keys...)
+		k, v := n.BLPop(time.Duration(timeout*float64(time.Second)), keys...)
 		if k == "" {
 			conn.WriteArrayNull()
 			return
@@ -2011,7 +2011,7 @@ func bRPop(n *Nodis, conn *redis.Conn, cmd redis.Command) {
 		return
 	}
 	execCommand(conn, func() {
-		k, v := n.BRPop(time.Duration(timeout*time.Second.Seconds())*time.Second, keys...)
+		k, v := n.BRPop(time.Duration(timeout*float64(time.Second)), keys...)
 		if k == "" {
 			conn.WriteArrayNull()
 			return
